@@ -101,6 +101,11 @@ def configs(tier, seed):
             out.append(('lincomb/tensor/float64/251x200/%s/%s/generic-scalars' % (order, pat),
                         dict(kind='lincomb', space='tensor', shape=[251, 200], dtype='float64', pattern=pat,
                              order=order, scalars='generic')))
+    # BLAS regime with more than one axis whose FIRST axis alone reaches T_M (len(x) != x.size)
+    for pat in ('distinct', 'out=x2'):
+        out.append(('lincomb/tensor/float64/%dx2/C/%s/generic-scalars' % (T_M, pat),
+                    dict(kind='lincomb', space='tensor', shape=[T_M, 2], dtype='float64', pattern=pat,
+                         order='C', scalars='generic')))
     for dt in ('longdouble', '>f8', 'float32', 'complex128'):
         for pat in ('distinct', 'out=x1'):
             out.append(('lincomb/tensor/%s/251x200/C/%s/generic-scalars' % (dt, pat),
@@ -336,6 +341,22 @@ def case(ctx, kind, space, shape=None, dtype='float64', pattern='distinct', orde
             ctx.eq('x/list', x / lst, [u / l for l, u in zip(lst, px)])
             ctx.eq('tuple-x', tuple(lst) - x, [l - u for l, u in zip(lst, px)])
             same('array-like operands')
+        if space in ('tensor', 'discr1', 'discr2') and sp.size <= 12:
+            # ndarray operands of exactly the space's dtype and shape (element() wraps them without copying): the
+            # result is a new element, the array keeps its contents, and doing it twice gives the same again
+            r = ctx.array('r', sp.shape, dtype)
+            pr = ctx.snapshot(r)
+            forms = [('x+arr', lambda: x + r, lambda u, v: u + v), ('arr+x', lambda: r + x, lambda u, v: v + u),
+                     ('x-arr', lambda: x - r, lambda u, v: u - v), ('arr-x', lambda: r - x, lambda u, v: v - u),
+                     ('x*arr', lambda: x * r, lambda u, v: u * v), ('arr*x', lambda: r * x, lambda u, v: v * u)]
+            for tag, f, ref in forms:
+                for rnd in (1, 2):
+                    got = f()
+                    ctx.eq('%s/round%d' % (tag, rnd), got, [ref(u, v) for u, v in zip(px, pr)])
+                    ctx.eq('%s/round%d/arr-unchanged' % (tag, rnd), r, pr)
+                    if hasattr(got, 'space'):
+                        ctx.fact('%s/round%d/result-is-an-element-of-the-space' % (tag, rnd), got in sp)
+            same('ndarray operands')
         ctx.eq('x**2', x ** 2, [u * u for u in px])
         ctx.eq('x**3', x ** 3, [u * u * u for u in px])
         same('unary/scalar')
@@ -399,6 +420,30 @@ def case(ctx, kind, space, shape=None, dtype='float64', pattern='distinct', orde
                                        ('copy', x.copy(), arr)):
                     ctx.fact('n=%d/%s' % (n, tag), np.array_equal(got.asarray(), want, equal_nan=True),
                              'got %s expected %s' % (got.asarray()[[0, -1]], want[[0, -1]]))
+            # element-wise multiply / divide with both operands the same object, entries 0, +-inf, nan
+            for sname, mk in (('rn', lambda n: odl.rn(n)), ('discr', lambda n: odl.uniform_discr(0, 1, n)),
+                              ('prod', lambda n: odl.ProductSpace(odl.rn(n), 2))):
+                spc = mk(n)
+                base = np.arange(1.0, n + 1)
+                base[0], base[1], base[-1] = 0.0, np.inf, np.nan
+                full = base if sname != 'prod' else [base, base[::-1].copy()]
+                want_full = np.concatenate([np.ravel(v) for v in full]) if sname == 'prod' else base
+                with np.errstate(all='ignore'):
+                    wq, wp = want_full / want_full, want_full * want_full
+                    z = spc.element(full)
+                    res = [('x/x', z / z, wq), ('x*x', z * z, wp), ('space.divide(x,x)', spc.divide(z, z), wq),
+                           ('x.divide(x)', z.divide(z), wq), ('x.multiply(x)', z.multiply(z), wp)]
+                    o = spc.element()
+                    spc.divide(z, z, out=o)
+                    res.append(('space.divide(x,x,out)', o, wq))
+                    t = spc.element(full)
+                    t /= t
+                    res.append(('x/=x', t, wq))
+                for tag, got, want in res:
+                    g = np.concatenate([np.ravel(p_.asarray()) for p_ in got.parts]) if sname == 'prod' \
+                        else np.ravel(got.asarray())
+                    ctx.fact('n=%d/%s/%s' % (n, sname, tag), np.array_equal(g, want, equal_nan=True),
+                             'got %s expected %s' % (g[:3], want[:3]))
         return
     if kind == 'broadcast':
         # power-space broadcasting: an element of the base space acts on every component
